@@ -284,10 +284,17 @@ class FastGroup:
             # a group without any datagram: only the identification datagram
             return []
         out = []
+        # the expected working counter is the number of terminals that
+        # process the datagram, counted here from the terminals themselves
+        # (not from SterilePacket.counters): one for a directly addressed
+        # write, every output-mapped FMMU terminal for the logical write
+        n_lwr = sum(1 for t, rw in self.sg.terminals.items()
+                    if rw and t.use_fmmu and t.pdo_out_sz)
         for d in dgs[1:]:
             if d.cmd in (2, 3, 5, 6, 8, 9, 11, 12):
-                out.append((d.hdr_pos, d.wkc_pos, d.cmd,
-                            self.packet.counters[d.wkc_pos]))
+                expected = {5: 1, 11: n_lwr}.get(
+                    d.cmd, self.packet.counters[d.wkc_pos])
+                out.append((d.hdr_pos, d.wkc_pos, d.cmd, expected))
         return out
 
     def var_off(self, device, name):
